@@ -125,6 +125,10 @@ static void build_ops(void)
 		c.cmd = XC_EQ; if (af[i].naddr != 0) add_op(c, 0);
 		c.cmd = XC_K; c.markname = 0; add_op(c, af[i].red && i < 9);
 		c.cmd = XC_K; c.markname = 2; add_op(c, 0);
+		c.cmd = XC_AT; c.reg = 2; add_op(c, af[i].red && i < 8);
+		c.reg = 0;
+		c.cmd = XC_FILT; c.arg = "tr o 0"; add_op(c, af[i].red && i < 8);
+		c.arg = NULL;
 	}
 	{
 		struct xcmd c;
@@ -268,6 +272,24 @@ static int nx_enabled(int k)
 		return 0;
 	if (model.n == 0 && adds && c->naddr != 0)
 		return 0;
+	/* @ b: only while register b holds the command line stored for it, and not with an address that
+	 * evaluates to line 0 (known finding c06-unresolved-accepted) */
+	if (c->cmd == XC_AT) {
+		if (!model.reg_set[2] || strcmp(model.reg[2], "d\n") || zero || model.n == 0)
+			return 0;
+		if (c->naddr >= 1 && xm_addr(&model, &c->a1, model.cur) == -1)
+			return 0;
+	}
+	/* a filter: not where the reference does not know whether the buffer counts as modified, and not with
+	 * an address that evaluates to line 0 */
+	if (c->cmd == XC_FILT) {
+		if (model.modified == 2 || zero || model.n == 0)
+			return 0;
+		if (c->naddr == 0)	/* without an address ! runs a command and filters nothing */
+			return 0;
+		if (c->naddr >= 1 && xm_addr(&model, &c->a1, model.cur) == -1)
+			return 0;
+	}
 	/* one-address commands are given at most one address (POSIX takes the last of two, neatvi's :a the first) */
 	if ((c->cmd == XC_A || c->cmd == XC_I) && (c->naddr == 2 || c->naddr == -1))
 		return 0;
@@ -320,9 +342,10 @@ static void run_config(int bi, int cur, int marka, int depth, int red)
 	vfs_put("f2", "file A\nfile B\n", -1);
 	xm_init(&model, buflines[bi], bufn[bi]);
 	/* registers: unnamed = "un", a = "ra1 ra2" (both line-wise) */
-	strcat(setup, "rs\nun\n.\nrs a\nra1\nra2\n.\n");
+	strcat(setup, "rs\nun\n.\nrs a\nra1\nra2\n.\nrs b\nd\n.\n");
 	xm_regput(&model, 0, "un\n", 1);
 	xm_regput(&model, 1, "ra1\nra2\n", 1);
+	xm_regput(&model, 2, "d\n", 1);		/* b holds an ex command line, for @ b */
 	if (marka >= 0) {
 		sprintf(setup + strlen(setup), "%dka\n", marka + 1);
 		model.mark[0] = model.ln[marka].id;
